@@ -114,7 +114,14 @@ func (w *World) BuildBlock(v1 []types.Transaction, v2 []types.V2Transaction, o B
 		MinerPayouts: []types.SiacoinOutput{{Value: reward, Address: addr}},
 		Transactions: v1,
 	}
-	if (child >= w.Net.HardforkV2.AllowHeight || o.ForceV2) && !o.ForceV1 {
+	v2format := (child >= w.Net.HardforkV2.AllowHeight || o.ForceV2) && !o.ForceV1
+	if !v2format && child%2 == 1 && reward.Cmp(types.NewCurrency64(15)) >= 0 {
+		// v1-format blocks may split reward + fees over several payouts: odd heights pay three unequal outputs to
+		// two addresses (v2-format blocks must carry exactly one)
+		a, c := reward.Div64(3), reward.Div64(5)
+		b.MinerPayouts = []types.SiacoinOutput{{Value: a, Address: addr}, {Value: c, Address: w.Keys.Addr(AddrV1)}, {Value: reward.Sub(a).Sub(c), Address: addr}}
+	}
+	if v2format {
 		b.V2 = &types.V2BlockData{Height: child, Transactions: v2}
 		b.V2.Commitment = cs.Commitment(addr, b.Transactions, b.V2.Transactions)
 	}
@@ -255,6 +262,8 @@ func (k *Keys) PolicyFor(class int) types.SpendPolicy {
 		return types.PolicyPublicKey(k.Pub[KeyOf(class)])
 	case AddrACS:
 		return types.AnyoneCanSpend()
+	case AddrThresh:
+		return k.ThreshPolicy()
 	}
 	panic("no policy for class")
 }
@@ -278,12 +287,16 @@ func (w *World) SignV2(txn *types.V2Transaction) {
 		c := w.Keys.ClassOf(txn.SiacoinInputs[i].Parent.SiacoinOutput.Address)
 		if k := KeyOf(c); c >= 0 && k >= 0 {
 			txn.SiacoinInputs[i].SatisfiedPolicy.Signatures = []types.Signature{w.Keys.Priv[k].SignHash(sh)}
+		} else if c == AddrThresh {
+			txn.SiacoinInputs[i].SatisfiedPolicy.Signatures = []types.Signature{w.Keys.Priv[0].SignHash(sh), w.Keys.Priv[1].SignHash(sh)}
 		}
 	}
 	for i := range txn.SiafundInputs {
 		c := w.Keys.ClassOf(txn.SiafundInputs[i].Parent.SiafundOutput.Address)
 		if k := KeyOf(c); c >= 0 && k >= 0 {
 			txn.SiafundInputs[i].SatisfiedPolicy.Signatures = []types.Signature{w.Keys.Priv[k].SignHash(sh)}
+		} else if c == AddrThresh {
+			txn.SiafundInputs[i].SatisfiedPolicy.Signatures = []types.Signature{w.Keys.Priv[0].SignHash(sh), w.Keys.Priv[1].SignHash(sh)}
 		}
 	}
 }
